@@ -12,7 +12,18 @@ ENTRY = dict(
          "further UTLSIdToSpec draws against the table (CDraw) and the real ShuffleChromeTLSExtensions on generated lists of 0..24 "
          "extensions with crypto/rand.Reader replaced by a logging reader, the swap calls recomputed with the same math/rand (CShuffle). "
          "Go-side oracle from the property text and the Go TYPES of the spec's extensions: legacy_version, suites modulo GREASE, "
-         "compression, extension type sequence / multiset + fixed slots, shuffle permutation + fixed slots. Distinct by "
+         "compression, extension type sequence / multiset + fixed slots, shuffle permutation + fixed slots. The tls.Config handed to "
+         "UClient is varied (rotation per connection: defaults / MinVersion,MaxVersion drawn from {unset,1.0,1.1,1.2,1.3} independently - "
+         "narrower, wider, inverted - NextProtos, CipherSuites, CurvePreferences, SessionTicketsDisabled, Renegotiation set / ONE *Config "
+         "object reused across all parrots as the previous connection left it); these fields are part of the model's cfg and neither the "
+         "model nor the oracle reads them (C03_config_independent), so any dependence of the wire on them is a failure. Server names "
+         "include the lengths 250..257, 300 where the nested SNI length fields cross a byte boundary. Entropy faults: crypto/rand.Reader "
+         "(deterministic stream derived from the seed for the whole run) is replaced by a reader failing from read k on while UTLSIdToSpec "
+         "generates the spec (every shuffling parrot, a quarter of the others; then ApplyPreset on a healthy source: CDraw + CBuild + CHello "
+         "oracle cases) and by a reader failing once at the first read of a whole UClient(id) connection (all parrots except non-shuffling "
+         "ones with GREASE ECH, whose first crypto/rand use is rand.Read, fatal by design in Go 1.24); the outcome must be an error or a "
+         "hello/spec that still matches. A quarter of the generated ShuffleChromeTLSExtensions runs have crypto/rand failing: their result "
+         "is checked against the postcondition proved for every swap list (CShufflePost, oracle case). Distinct by "
          "(parrot, server name, path); every hello is non-trivial, a shuffle when it moved something.",
     trusted_base=["translator harness/cmd/c03/gen.go (go/parser enumeration, rendering of spec fields) and harness/extcoq (ExtTerm, copy of hostnameInSNI)",
                   "the runner's ClientHello framing parser (harness/cmd/c03/wire.go) and its recovery of per-connection material from the output",
